@@ -1741,6 +1741,11 @@ func (a *Agent) handleInbound(msg *stun.Message, local Candidate, remote netip.A
 		return
 	}
 
+	// A failed agent released its pairs and candidates; only Restart brings it back.
+	if a.connectionState == ConnectionStateFailed {
+		return
+	}
+
 	if !canHandleInbound(msg) {
 		a.log.Tracef("Unhandled STUN from %s to %s class(%s) method(%s)", remote, local, msg.Type.Class, msg.Type.Method)
 
